@@ -12,7 +12,7 @@ class Contract(object):
                  modifies=(), invariants=None, inline=False, on_raise=None, raises_when=None,
                  may_raise_app=True, ghost=None, self_cls=None, trusted=False, external=False,
                  note=None, props=(), generator=False, pure=True, loop_bounds=None, carries=(),
-                 ensures_fn=None, defaults=None, post_names=None, variants=None, definitions=None, unfold_depth=1, comprehensions=None, abstract_nonlinear=False, bounded_lists=None):
+                 ensures_fn=None, defaults=None, post_names=None, variants=None, definitions=None, unfold_depth=1, comprehensions=None, abstract_nonlinear=False, bounded_lists=None, instantiate_int_foralls=False, names_result=None):
         self.file, self.qualname = file, qualname
         self.params = OrderedDict(params or [])
         self.requires = requires or (lambda v: [])
@@ -34,6 +34,8 @@ class Contract(object):
         self.definitions = definitions     # lambda: [definitional axioms of opaque spec functions revealed inside this function only]
         self.unfold_depth = unfold_depth
         self.abstract_nonlinear = abstract_nonlinear
+        self.instantiate_int_foralls = instantiate_int_foralls
+        self.names_result = names_result   # lambda v, res: [equalities naming the result of a pure deterministic function by a spec function] — assumed at call sites only (definitional)
         self.bounded_lists = bounded_lists or {}   # loop ordinal -> {list variable: (length expression lambda v, bound)}: case split on the length
         self.comprehensions = comprehensions or {}   # ordinal -> (SpecSeq, lambda v: [params])  list comprehension over a symbolic list = that spec sequence
         self.key = (file, qualname)
